@@ -81,7 +81,7 @@ theorem step_inv (c : Cfg) (s s' : State) (op : Op) (h : BInv s) (hs : step? c s
     BInv s' := by
   obtain ⟨h1, h2, h3, h4⟩ := h
   cases op with
-  | add e now =>
+  | add e t0 now =>
     simp only [step?] at hs
     split at hs; · simp at hs
     split at hs; · simp at hs; subst hs; exact ⟨h1, h2, h3, h4⟩
@@ -91,7 +91,7 @@ theorem step_inv (c : Cfg) (s s' : State) (op : Op) (h : BInv s) (hs : step? c s
     have hb := getBatch_evs hg
     refine ⟨h1, h2, ?_, h4⟩
     simp [afterStatus, curEvs, updateStatus_evs, Cur.append, hb, ← h3, List.append_assoc]
-  | heartbeat now =>
+  | heartbeat t0 now =>
     simp only [step?] at hs
     split at hs; · simp at hs
     split at hs; · simp at hs; subst hs; exact ⟨h1, h2, h3, h4⟩
@@ -341,7 +341,7 @@ theorem sizeOk_append {c : Cfg} {b : Cur} (e : Ev) (h : CurOk c false b) : SizeO
 theorem step_sinv (c : Cfg) (s s' : State) (op : Op) (hi : SInv c s) (hs : step? c s op = some s') :
     SInv c s' := by
   cases op with
-  | add e now =>
+  | add e t0 now =>
     simp only [step?] at hs
     split at hs; · simp at hs
     rename_i hl
@@ -357,7 +357,7 @@ theorem step_sinv (c : Cfg) (s s' : State) (op : Op) (hi : SInv c s) (hs : step?
       exact curOk_afterStatus now (by simp [Cur.append, bytesOf_append, hb.size]) hok
         (by simp [Cur.append, hasIter_append, hb.iter])
     · simp [afterStatus]
-  | heartbeat now =>
+  | heartbeat t0 now =>
     simp only [step?] at hs
     split at hs; · simp at hs
     rename_i hl
@@ -450,14 +450,14 @@ structure QInv (c : Cfg) (s : State) : Prop where
 theorem step_qinv (c : Cfg) (s s' : State) (op : Op) (hi : QInv c s) (hs : step? c s op = some s') :
     QInv c s' := by
   cases op with
-  | add e now =>
+  | add e t0 now =>
     simp only [step?] at hs
     split at hs; · simp at hs
     split at hs; · simp at hs; subst hs; exact hi
     split at hs; · simp at hs
     simp at hs; subst hs
     exact ⟨hi.flags, hi.queued, hi.noPanic⟩
-  | heartbeat now =>
+  | heartbeat t0 now =>
     simp only [step?] at hs
     split at hs; · simp at hs
     split at hs; · simp at hs; subst hs; exact hi
@@ -579,13 +579,13 @@ theorem stepH_inv (c : Cfg) (p p' : State × List Op) (op : Op) (hi : HInv p) (h
   have hres : ∀ q ∈ s.resolved, q.2 = false → ∃ k, Op.sendDone k false ∈ h ++ [op] :=
     fun q hq hf => (hi.resolved q hq hf).imp (fun _ y => List.mem_append_left _ y)
   cases op with
-  | add e now =>
+  | add e t0 now =>
     simp only [step?] at hs
     split at hs; · simp at hs
     split at hs; · simp at hs; subst hs; exact ⟨hfull, hres⟩
     split at hs; · simp at hs
     simp at hs; subst hs; exact ⟨hfull, hres⟩
-  | heartbeat now =>
+  | heartbeat t0 now =>
     simp only [step?] at hs
     split at hs; · simp at hs
     split at hs; · simp at hs; subst hs; exact ⟨hfull, hres⟩
@@ -681,14 +681,14 @@ theorem step_commitSeq (c : Cfg) (s s' : State) (op : Op) (hs : step? c s op = s
     split at hs
     · rename_i hg; simp at hs; subst hs; exact ⟨hg.2.1, rfl⟩
     · simp at hs
-  | add e now =>
+  | add e t0 now =>
     refine ⟨fun k h => (by cases h), fun _ => ?_⟩
     simp only [step?] at hs
     split at hs; · simp at hs
     split at hs; · simp at hs; subst hs; rfl
     split at hs; · simp at hs
     simp at hs; subst hs; rfl
-  | heartbeat now =>
+  | heartbeat t0 now =>
     refine ⟨fun k h => (by cases h), fun _ => ?_⟩
     simp only [step?] at hs
     split at hs; · simp at hs
@@ -746,8 +746,8 @@ theorem run_commits (c : Cfg) (s0 s : State) (ops : List Op) (hr : TS.run (step?
         simp only [commitsOf, List.length_cons, List.range'_succ]
         rw [hk'] at h1 h2
         exact ⟨by rw [← h1, hk], by omega⟩
-      | add _ _ => simp only [commitsOf]; rw [hc.2 (by intro k h; cases h)] at h1 h2; exact ⟨h1, h2⟩
-      | heartbeat _ => simp only [commitsOf]; rw [hc.2 (by intro k h; cases h)] at h1 h2; exact ⟨h1, h2⟩
+      | add _ _ _ => simp only [commitsOf]; rw [hc.2 (by intro k h; cases h)] at h1 h2; exact ⟨h1, h2⟩
+      | heartbeat _ _ => simp only [commitsOf]; rw [hc.2 (by intro k h; cases h)] at h1 h2; exact ⟨h1, h2⟩
       | sealB => simp only [commitsOf]; rw [hc.2 (by intro k h; cases h)] at h1 h2; exact ⟨h1, h2⟩
       | enqueue _ => simp only [commitsOf]; rw [hc.2 (by intro k h; cases h)] at h1 h2; exact ⟨h1, h2⟩
       | sendStart _ => simp only [commitsOf]; rw [hc.2 (by intro k h; cases h)] at h1 h2; exact ⟨h1, h2⟩
